@@ -110,6 +110,7 @@ class World:
         # ambient configuration of the host application
         self.dot_dirs = self.rng_spell.random() < 0.3      # input files below a dot-directory
         self.debug_logging = self.rng_spell.random() < 0.25
+        self.typed_scores = self.rng_spell.random() < 0.5   # callers of the in-memory route
         self.node('primary')
         self.use('primary')
         self.install()
